@@ -12,31 +12,18 @@ Section P.
   Variable engine : bytes -> outcome.
   Variable process : bytes -> bytes + bytes.
 
-  Lemma solo_generated o i t content :
-    o_skip_generated o = true -> t_read t = inl content -> parses content = None ->
-    check_generated_code (header_of content) = true ->
-    solo parses header_of engine process o i t
-    = {| r_events := [EvLog i (t_abs t) LGenSkipped]; r_errors := []; r_runner_errors := [];
-         r_abort := None |}.
-  Proof.
-    intros Hf Hr Hp Hg. unfold solo, step. simpl. rewrite Hr, Hp, Hf, Hg. reflexivity.
-  Qed.
-
   Lemma skip_untouched o ts i t content :
     o_skip_generated o = true ->
     nth_error ts i = Some t -> t_read t = inl content -> parses content = None ->
     check_generated_code (header_of content) = true ->
-    (forall e, In e (events_of i (run parses header_of engine process o ts)) ->
-               e = EvLog i (t_abs t) LGenSkipped)
+    events_of i (run parses header_of engine process o ts) = [EvLog i (t_abs t) LGenSkipped]
     /\ all_errors (solo parses header_of engine process o i t) = [].
   Proof.
-    intros Hf Hn Hr Hp Hg. pose proof (solo_generated o i t content Hf Hr Hp Hg) as S.
-    split.
-    - intros e He. destruct (forallb readable (firstn i ts)) eqn:R.
-      + rewrite (run_events_of _ _ _ _ _ ts i t Hn R), S in He. simpl in He.
-        destruct He as [<-|[]]. reflexivity.
-      + rewrite (run_events_after_abort _ _ _ _ _ ts i R) in He. destruct He.
-    - rewrite S. reflexivity.
+    intros Hf Hn Hr Hp Hg.
+    assert (o_skip_generated o && check_generated_code (header_of content) = true) as H3
+        by (rewrite Hf, Hg; reflexivity).
+    rewrite (run_events_of _ _ _ _ _ ts i t Hn).
+    rewrite (solo_generated _ _ _ _ _ _ _ _ Hr Hp H3). split; reflexivity.
   Qed.
 
   Lemma only_them o i t :
